@@ -67,8 +67,12 @@ def gen_case(rng):
                                                              - rng.randint(0, 5))])
         else:
             continue
-        if a in used or a == 0:
+        if a == 0:
             continue
+        if a in used and rng.random() > 0.5:
+            continue
+        # (now and then two terminals carry the same stale address from an
+        # earlier configuration: a probe there comes back processed twice)
         used.add(a)
         pre[i] = a
     return dict(n=n, range=[lo, hi], pre={str(k): v for k, v in pre.items()},
@@ -200,7 +204,8 @@ def run_case(case):
             if case["cancel_after"] % 2:
                 # cancelled exactly while the reply to the k-th address
                 # assignment is on the wire
-                kth = 1 + case["cancel_after"] % n
+                kth = 1 + case["cancel_after"] % max(1, sum(
+                    1 for i in range(n) if str(i) not in case["pre"]))
 
                 def on_apwr(count):
                     if count == kth and not task.done():
@@ -300,7 +305,13 @@ def check_case(case, res):
                           f" already answers to",
                           case=case)
             return
-    final = [t.station for t in terms if t.station]
+    # (terminals the master never wrote may keep a stale address they
+    # shared from the start)
+    written = {i for i, _, _ in writes}
+    stale = [t.station for i, t in enumerate(terms)
+             if t.station and i not in written]
+    final = [t.station for i, t in enumerate(terms)
+             if t.station and i in written] + sorted(set(stale))
     if len(final) != len(set(final)):
         res.violation("unexplained:duplicate-address",
                       f"final addresses not distinct: {sorted(final)}",
